@@ -37,14 +37,19 @@ type monitoredPusher struct {
 	*errgroup.Group
 	context.Context
 	*actions.HttpPushStreamer
-	cancel func()
+	cancel   func()
+	endpoint string
 }
 
-func monitorPusher(ctx context.Context, pusher *actions.HttpPushStreamer) monitoredPusher {
+func monitorPusher(
+	ctx context.Context,
+	pusher *actions.HttpPushStreamer,
+	endpoint string,
+) monitoredPusher {
 	ctx, cancel := context.WithCancel(ctx)
 	eg, egCtx := errgroup.WithContext(ctx)
 	eg.Go(func() error { return pusher.Go(egCtx) })
-	return monitoredPusher{eg, egCtx, pusher, cancel}
+	return monitoredPusher{eg, egCtx, pusher, cancel, endpoint}
 }
 
 func waitPusherMonitors(
@@ -199,11 +204,16 @@ func (s *httpPusher) startPushersOnce(ctx context.Context) error {
 		}
 
 		for _, sub := range pushSubs {
+			if p, ok := s.pushers[sub.ID]; ok && p.endpoint != *sub.PushEndpoint {
+				// the endpoint was changed: this pusher is terminated below, and
+				// its replacement is started once it has been harvested
+				continue
+			}
 			curSet[sub.ID] = struct{}{}
 			if _, ok := s.pushers[sub.ID]; !ok {
 				// need to start a new pusher
 				p := actions.NewHttpPusher(sub.Name, sub.ID, *sub.PushEndpoint, nil, s.client)
-				s.pushers[sub.ID] = monitorPusher(ctx, p)
+				s.pushers[sub.ID] = monitorPusher(ctx, p, *sub.PushEndpoint)
 			}
 		}
 		return nil
